@@ -1650,10 +1650,24 @@ def _make_gin_wrapper(fn, fn_or_cls, name, selector, allowlist, denylist):
     # `ConfigurableReference` instances buried somewhere inside `new_kwargs`.
     # See the docstring on `ConfigurableReference.__deepcopy__` above for more
     # details on the dark magic happening here.
+    # A binding whose value is the `REQUIRED` marker itself (`fn.arg =
+    # %gin.REQUIRED`: "to be overridden elsewhere") supplies no value; the
+    # parameter counts as required and unbound, and the marker is never passed
+    # on to `fn`.
+    marker_bound = [k for k, v in new_kwargs.items() if v is REQUIRED]
     new_kwargs = copy.deepcopy(new_kwargs)
+    marker_bound.extend(k for k, v in new_kwargs.items()
+                        if v is REQUIRED and k not in marker_bound)
+    for arg_name in marker_bound:
+      del new_kwargs[arg_name]
 
     # Validate args marked as REQUIRED have been bound in the Gin config.
-    missing_required_params = []
+    missing_required_params = [
+        arg_name for arg_name in marker_bound
+        if arg_name not in required_arg_names and
+        arg_name not in signature_required_kwargs and
+        arg_name not in caller_required_kwargs
+    ]
     new_args = list(args)
     for i, arg_name in zip(required_arg_indexes, required_arg_names):
       if arg_name not in new_kwargs:
